@@ -43,6 +43,12 @@ Theorem C07_weighted_residual_is_broadcast :
                 (seq 0 (prodn pre * prodn suf))).
 Proof. exact weighted_residual_is_broadcast. Qed.
 
+(* ... and the same holds for every column of the weighted Jacobian W @ J *)
+Theorem C07_weighted_jacobian_columnwise : forall n m (W J : @mat R) i j,
+  wf n n W -> wf n m J -> (i < n)%nat -> (j < m)%nat ->
+  mget (mmul W J) i j = vget (mapply W (mcol_of j J)) i.
+Proof. exact mmul_columns. Qed.
+
 (* ------------------------------------------------------------------------------------------ *)
 (* 2. the LM matrix: after k trials of one call (dampings lam_1 .. lam_k, any k, cumulative as coded)
       diag A_k = clamp(diag (J_T J)) * prod (1 + lam_j), off-diagonal entries are those of J_T J *)
@@ -211,9 +217,16 @@ Example C07_gn_step_without_frozen : forall corr gexp (solver : @mat R -> list R
             map (@pdata R) (tP o) = [[0 + d1]; [0 + d2]].
 Proof. exact free_pb_steps. Qed.
 
+Example C07_solver_contract_satisfiable :
+  let A := [[1; 1]] in let b := vneg [1] in
+  mapply (mtr A) (mapply A [-1/2; -1/2]) = mapply (mtr A) b /\
+  mapply (mtr A) (mapply A [-1; 0]) = mapply (mtr A) b.
+Proof. exact free_pb_normal_equations. Qed.
+
 Print Assumptions C07_weight_expansion_is_broadcast.
 Print Assumptions C07_block_diag_acts_blockwise.
 Print Assumptions C07_weighted_residual_is_broadcast.
+Print Assumptions C07_weighted_jacobian_columnwise.
 Print Assumptions C07_lm_diag_closed_form.
 Print Assumptions C07_clamp_is_documented.
 Print Assumptions C07_gn_normal_equations.
@@ -228,3 +241,4 @@ Print Assumptions C07_step_with_frozen_raises.
 Print Assumptions C07_zip_pairs_all_params_with_trainable_slices.
 Print Assumptions C07_gn_step_with_frozen_refuted.
 Print Assumptions C07_gn_step_without_frozen.
+Print Assumptions C07_solver_contract_satisfiable.
